@@ -101,6 +101,7 @@ func (g *umGen) structType(depth int, bad bool, defs map[string]bool) reflect.Ty
 	n := 1 + g.r.Intn(5)
 	for i := 0; i < n; i++ {
 		var ft reflect.Type
+		nestedBad := false
 		switch k := g.r.Intn(20); {
 		case bad && k == 0:
 			ft = userNamedLeafTypes[g.r.Intn(len(userNamedLeafTypes))]
@@ -114,13 +115,15 @@ func (g *umGen) structType(depth int, bad bool, defs map[string]bool) reflect.Ty
 		case k < 12:
 			ft = umLibStructs[g.r.Intn(len(umLibStructs))]
 		case k < 15:
-			ft = g.structType(depth+1, bad && g.r.Intn(3) == 0, defs) // a nested type with a descriptor error: found only when a value reaches it
+			nestedBad = bad && g.r.Intn(3) == 0
+			ft = g.structType(depth+1, nestedBad, defs) // a nested type with a descriptor error: found only when a value reaches it
 		case k < 17:
 			ft = reflect.SliceOf(userLeafTypes[g.r.Intn(len(userLeafTypes))])
 		case k < 18:
 			ft = reflect.SliceOf(umLibStructs[g.r.Intn(len(umLibStructs))])
 		default:
-			ft = reflect.SliceOf(g.structType(depth+1, bad && g.r.Intn(3) == 0, defs))
+			nestedBad = bad && g.r.Intn(3) == 0
+			ft = reflect.SliceOf(g.structType(depth+1, nestedBad, defs))
 		}
 		ann := "~"
 		if g.r.Intn(8) != 0 {
@@ -140,6 +143,11 @@ func (g *umGen) structType(depth int, bad bool, defs map[string]bool) reflect.Ty
 			}
 		} else if g.r.Intn(3) == 0 {
 			ann = ",required" // no tag name: the field is ignored
+		}
+		if nestedBad && strings.Contains(ann, "skip") {
+			// a never-decoded field stays at its zero value, which the model cannot spell for a type without a descriptor
+			// (it shows the position as nil): such a field is not generated
+			ann = sg.tagName(used)
 		}
 		sf := reflect.StructField{Name: fmt.Sprintf("F%d", i), Type: ft}
 		fname := sf.Name
